@@ -130,9 +130,13 @@ func Route(v *vrt.Ctx) {
 	st.SizeIdx = start.idx
 	entered0 := codeCalls(rs)
 
-	in := v.Bytes("input", 1+v.Choice("inputlen", v.Param("inputlen")))
-	_, verr := vm.ValidInput(in)
-	v.Assume(verr == nil)
+	// the empty input is an input too (the engine checks the format of
+	// non-empty input only): it matches the wildcard and nothing else
+	in := v.Bytes("input", v.Choice("inputlen", 1+v.Param("inputlen")))
+	if len(in) > 0 {
+		_, verr := vm.ValidInput(in)
+		v.Assume(verr == nil)
+	}
 	st.SetInput(in)
 	rest, err = vmi.Run(ctx, rest)
 	v.Observe("run-err", err)
